@@ -115,6 +115,33 @@ def subparse (P : Parsers) (toks : List PTok) : Nat → Option (List String) →
            | x => x)
       | _ => .internal                                         -- `raise AssertionError("internal parsing error")`
 
+/-- `InternationalizationExtension._parse_block(parser, allow_pluralize)` (ext.py:471-517): the loop over the body of a
+    `{% trans %}` block up to `endtrans` / `pluralize`; entered right after a `block_end`.  Fully modelled (it calls no
+    sub-parser): the position of the tag name that ended the section -/
+def transBlock (toks : List PTok) (allowPluralize : Bool) : Nat → Pos → Res
+  | 0, _ => .fuel
+  | fuel + 1, p =>
+    match toks[p]? with
+    | none => .syntaxError                                     -- `stream.eos`: "unclosed translation block"
+    | some t =>
+      match t.kind with
+      | .data => transBlock toks allowPluralize fuel (p + 1)
+      | .variableBegin =>
+        (match expect toks .name (p + 1) with
+         | .ok q =>
+           (match expect toks .variableEnd q with
+            | .ok q' => transBlock toks allowPluralize fuel q'
+            | x => x)
+         | x => x)
+      | .blockBegin =>
+        (match toks[p + 1]? with
+         | some t1 =>
+           if t1.kind = .name ∧ t1.value = "endtrans" then .ok (p + 1)
+           else if t1.kind = .name ∧ t1.value = "pluralize" ∧ allowPluralize = true then .ok (p + 1)
+           else .syntaxError                                   -- second pluralize, nested trans, control structure
+         | none => .syntaxError)
+      | _ => .internal                                         -- `raise RuntimeError("internal parser error")`
+
 /-- `Parser.parse` -/
 def parse (P : Parsers) (toks : List PTok) (fuel : Nat) : Res := subparse P toks fuel none 0
 
